@@ -637,6 +637,8 @@ def evalf(roots, env):
             elif op == 'uf':
                 if a[0] == 'pow':
                     r = memo[a[1].id] ** memo[a[2].id]
+                elif a[0] == 'gauss':
+                    r = math.exp(-memo[a[1].id] ** 2)
                 else:
                     r = getattr(math, a[0])(memo[a[1].id])
             else:
